@@ -297,6 +297,19 @@ def root_local(scope, e):
     return None
 
 
+def alias_root(scope, e):
+    """like root_local, but follows `let x = <view of y>` aliases to the binder the value originally comes from"""
+    b = root_local(scope, e)
+    for _ in range(8):
+        if b is None or b.kind != "let" or b.init is None:
+            return b
+        nb = root_local(scope, b.init)
+        if nb is None:
+            return b
+        b = nb
+    return b
+
+
 # --------------------------------------------------------------------------- name provenance
 class NameFlow:
     """Where does a string that *is a program name* go?  Every use of a source binder is classified as
@@ -802,7 +815,7 @@ def scan_template(text, quotes='"'):
         if expr in ("else", "^") or expr.startswith("else ") or expr.startswith("!"):
             continue
         ctx = "quote" if q else ("line-comment" if line else "code")
-        out.append({"ctx": ctx, "expr": expr, "block": list(stack), "line_prefix": list(line_mustaches)})
+        out.append({"ctx": ctx, "expr": expr, "block": list(stack), "line_prefix": list(line_mustaches), "pos": m.start()})
         line_mustaches.append(expr)
     return out
 
